@@ -15,6 +15,15 @@
 (* itself is notified too); a snapshot (clear + insert @ 0..n-1) is part of  *)
 (* the FILTERED result of a PR_COMMAND_GETDATA / of a non-quiet subscribe.   *)
 (* One command = one action; the subscribers apply their log at once.        *)
+(* Less common entry points are actions of their own: an ordered insert or   *)
+(* a set REFUSED because the parent holds the server's per-node child limit  *)
+(* (Refusals: index and logs stay as they are, only the name counter moves); *)
+(* two commands of the owner in ONE PR_COMMAND_BATCH (Batches / hold: the    *)
+(* documented meaning is "in order, as if they came separately", so every    *)
+(* pair - a change followed by a snapshot request, and every other order -   *)
+(* is the composition of its parts and the logs must arrive in that order);  *)
+(* removal of all children by wildcard; quiet subscribes and quiet removals  *)
+(* (QuietOps); departure and return of the owner's session (Churn).          *)
 (*                                                                          *)
 (* IndexAbs (the property) is at the bottom: ReplayOK (the index replayed    *)
 (* from the log equals the server's, for every subscriber that tracks the    *)
